@@ -250,7 +250,7 @@ def design_and_cases(ctx, n, w, lazy):
     with open(os.path.join(d, cfg), "w") as f:
         f.write("CONSTANTS N = %d W = %d Lazy = %s\nSPECIFICATION FairSpec\nINVARIANT DesignRefinesProps\n"
                 "INVARIANT PrefixSafe\nINVARIANT Emit\nPROPERTY Done\n" % (n, w, "TRUE" if lazy else "FALSE"))
-    res = ctx.tlc(d, "PoolDesign", cfg, workers=8, coverage=False, timeout=1500)
+    res = ctx.tlc(d, "PoolDesign", cfg, workers=16, coverage=False, timeout=5400)
     seen, out = set(), []
     for c in res.tagged("CASE"):
         key = (json.dumps(c["fail"]), c["e2w"], json.dumps(c["order"]))
@@ -298,7 +298,7 @@ def run(ctx):
                 "submit/start/finish/consume/raise events are validated against PoolProps by TLC (PoolTrace). "
                 "Non-trivial: schedules with an out-of-order completion or a failing file.")
     configs = [(4, 2, True), (3, 2, False), (3, 1, True)] if quick else \
-        [(5, 2, True), (5, 3, True), (5, 1, True), (5, 2, False), (4, 3, False), (6, 2, True)]
+        [(5, 2, True), (5, 3, True), (5, 1, True), (5, 2, False), (4, 3, False)]      # (n = 6 exceeds 10^8 event prefixes)
     items = []
     for n, w, lazy in configs:
         cases = design_and_cases(ctx, n, w, lazy)
